@@ -136,6 +136,34 @@ func (x *accx) expr(e ast.Expr) string {
 			return fmt.Sprintf("(.conv %d %s)", w, x.expr(t.Args[0]))
 		}
 		if id, ok := t.Fun.(*ast.Ident); ok {
+			// all arguments constant: evaluate the helper here (straight-line code with if/else over unsigned integers), so
+			// that a mask helper written with a conditional still yields the constant it computes
+			if fd := x.p.funcs()[id.Name]; fd != nil && fd.Recv == nil && fd.Body != nil {
+				var cargs []uint64
+				allConst := len(t.Args) > 0
+				for _, a := range t.Args {
+					tv, ok := x.p.Info.Types[a]
+					if !ok || tv.Value == nil || tv.Value.Kind() != constant.Int {
+						allConst = false
+						break
+					}
+					v, exact := constant.Uint64Val(tv.Value)
+					if !exact {
+						allConst = false
+						break
+					}
+					cargs = append(cargs, v)
+				}
+				if allConst {
+					if v, ok := evalConstCall(x.p, fd, cargs); ok {
+						// truncated to the helper's result width: keeps the symbolic bit strings as short as the inlined form did
+						if w := x.width(t); w > 0 {
+							return fmt.Sprintf("(.conv %d (.const %d))", w, v)
+						}
+						return fmt.Sprintf("(.const %d)", v)
+					}
+				}
+			}
 			// a package-level helper with a straight-line body (`x := e` / `x = e` statements, then `return e` or a bare return
 			// of the named result): inline it, arguments and locals substituted (GetBitMask is the one the generator uses)
 			fd := x.p.funcs()[id.Name]
@@ -553,4 +581,244 @@ func classifyPair(p *Pkg, mask *ast.FuncDecl, g, s *ast.FuncDecl, ap *accPair) b
 	}
 	ap.Get = "shape"
 	return false
+}
+
+// ---- a small evaluator for helper functions over unsigned integers (used only when every argument is a constant) ----
+
+type cval struct {
+	v uint64
+	w int // width in bits (0: boolean)
+}
+
+type cenv struct {
+	p    *Pkg
+	vars map[string]cval
+	ret  *cval
+	ok   bool
+}
+
+func maskW(v uint64, w int) uint64 {
+	if w <= 0 || w >= 64 {
+		return v
+	}
+	return v & (uint64(1)<<uint(w) - 1)
+}
+
+func evalConstCall(p *Pkg, fd *ast.FuncDecl, args []uint64) (uint64, bool) {
+	if fd.Type.Results == nil || len(fd.Type.Results.List) != 1 {
+		return 0, false
+	}
+	e := &cenv{p: p, vars: map[string]cval{}, ok: true}
+	i := 0
+	for _, f := range fd.Type.Params.List {
+		w := uintWidth(p.Info.TypeOf(f.Type))
+		if w == 0 {
+			return 0, false
+		}
+		for _, n := range f.Names {
+			if i >= len(args) {
+				return 0, false
+			}
+			e.vars[n.Name] = cval{maskW(args[i], w), w}
+			i++
+		}
+	}
+	if i != len(args) {
+		return 0, false
+	}
+	rw := uintWidth(p.Info.TypeOf(fd.Type.Results.List[0].Type))
+	if rw == 0 {
+		return 0, false
+	}
+	named := ""
+	if r := fd.Type.Results.List[0]; len(r.Names) == 1 {
+		named = r.Names[0].Name
+		e.vars[named] = cval{0, rw}
+	}
+	e.block(fd.Body.List, named)
+	if !e.ok || e.ret == nil {
+		return 0, false
+	}
+	return maskW(e.ret.v, rw), true
+}
+
+func (e *cenv) block(list []ast.Stmt, named string) {
+	for _, st := range list {
+		if !e.ok || e.ret != nil {
+			return
+		}
+		switch u := st.(type) {
+		case *ast.AssignStmt:
+			if len(u.Lhs) != 1 || len(u.Rhs) != 1 {
+				e.ok = false
+				return
+			}
+			id, ok := u.Lhs[0].(*ast.Ident)
+			if !ok {
+				e.ok = false
+				return
+			}
+			r := e.expr(u.Rhs[0])
+			switch u.Tok {
+			case token.DEFINE:
+				w := uintWidth(e.p.Info.TypeOf(id))
+				if w == 0 {
+					e.ok = false
+					return
+				}
+				e.vars[id.Name] = cval{maskW(r.v, w), w}
+			case token.ASSIGN:
+				old, ok := e.vars[id.Name]
+				if !ok {
+					e.ok = false
+					return
+				}
+				e.vars[id.Name] = cval{maskW(r.v, old.w), old.w}
+			default:
+				op := map[token.Token]token.Token{token.ADD_ASSIGN: token.ADD, token.SUB_ASSIGN: token.SUB, token.AND_ASSIGN: token.AND,
+					token.OR_ASSIGN: token.OR, token.XOR_ASSIGN: token.XOR, token.SHL_ASSIGN: token.SHL, token.SHR_ASSIGN: token.SHR,
+					token.AND_NOT_ASSIGN: token.AND_NOT}[u.Tok]
+				old, ok := e.vars[id.Name]
+				if !ok || op == token.ILLEGAL {
+					e.ok = false
+					return
+				}
+				e.vars[id.Name] = cval{maskW(e.binop(op, old, r).v, old.w), old.w}
+			}
+		case *ast.IfStmt:
+			if u.Init != nil {
+				e.ok = false
+				return
+			}
+			c := e.expr(u.Cond)
+			if c.v != 0 {
+				e.block(u.Body.List, named)
+			} else if u.Else != nil {
+				switch el := u.Else.(type) {
+				case *ast.BlockStmt:
+					e.block(el.List, named)
+				case *ast.IfStmt:
+					e.block([]ast.Stmt{el}, named)
+				default:
+					e.ok = false
+				}
+			}
+		case *ast.ReturnStmt:
+			if len(u.Results) == 1 {
+				r := e.expr(u.Results[0])
+				e.ret = &r
+			} else if len(u.Results) == 0 && named != "" {
+				r := e.vars[named]
+				e.ret = &r
+			} else {
+				e.ok = false
+			}
+		case *ast.BlockStmt:
+			e.block(u.List, named)
+		default:
+			e.ok = false
+		}
+	}
+}
+
+func (e *cenv) binop(op token.Token, a, b cval) cval {
+	w := a.w
+	bool2 := func(c bool) cval {
+		if c {
+			return cval{1, 0}
+		}
+		return cval{0, 0}
+	}
+	switch op {
+	case token.ADD:
+		return cval{maskW(a.v+b.v, w), w}
+	case token.SUB:
+		return cval{maskW(a.v-b.v, w), w}
+	case token.MUL:
+		return cval{maskW(a.v*b.v, w), w}
+	case token.AND:
+		return cval{a.v & b.v, w}
+	case token.OR:
+		return cval{a.v | b.v, w}
+	case token.XOR:
+		return cval{a.v ^ b.v, w}
+	case token.AND_NOT:
+		return cval{a.v &^ b.v, w}
+	case token.SHL:
+		if b.v >= 64 {
+			return cval{0, w}
+		}
+		return cval{maskW(a.v<<b.v, w), w}
+	case token.SHR:
+		if b.v >= 64 {
+			return cval{0, w}
+		}
+		return cval{a.v >> b.v, w}
+	case token.LSS:
+		return bool2(a.v < b.v)
+	case token.LEQ:
+		return bool2(a.v <= b.v)
+	case token.GTR:
+		return bool2(a.v > b.v)
+	case token.GEQ:
+		return bool2(a.v >= b.v)
+	case token.EQL:
+		return bool2(a.v == b.v)
+	case token.NEQ:
+		return bool2(a.v != b.v)
+	case token.LAND:
+		return bool2(a.v != 0 && b.v != 0)
+	case token.LOR:
+		return bool2(a.v != 0 || b.v != 0)
+	}
+	e.ok = false
+	return cval{}
+}
+
+func (e *cenv) expr(x ast.Expr) cval {
+	if tv, ok := e.p.Info.Types[x]; ok && tv.Value != nil && tv.Value.Kind() == constant.Int {
+		v, exact := constant.Uint64Val(tv.Value)
+		if !exact {
+			e.ok = false
+			return cval{}
+		}
+		w := uintWidth(tv.Type)
+		return cval{maskW(v, w), w}
+	}
+	switch t := x.(type) {
+	case *ast.ParenExpr:
+		return e.expr(t.X)
+	case *ast.Ident:
+		if v, ok := e.vars[t.Name]; ok {
+			return v
+		}
+	case *ast.BinaryExpr:
+		a, b := e.expr(t.X), e.expr(t.Y)
+		r := e.binop(t.Op, a, b)
+		if w := uintWidth(e.p.Info.TypeOf(t)); w != 0 {
+			r = cval{maskW(r.v, w), w}
+		}
+		return r
+	case *ast.UnaryExpr:
+		a := e.expr(t.X)
+		switch t.Op {
+		case token.XOR:
+			return cval{maskW(^a.v, a.w), a.w}
+		case token.NOT:
+			if a.v == 0 {
+				return cval{1, 0}
+			}
+			return cval{0, 0}
+		case token.SUB:
+			return cval{maskW(-a.v, a.w), a.w}
+		}
+	case *ast.CallExpr:
+		if ftv, ok := e.p.Info.Types[t.Fun]; ok && ftv.IsType() && len(t.Args) == 1 {
+			if w := uintWidth(ftv.Type); w != 0 {
+				return cval{maskW(e.expr(t.Args[0]).v, w), w}
+			}
+		}
+	}
+	e.ok = false
+	return cval{}
 }
